@@ -338,6 +338,8 @@ def parse_stmt(p):
         ty = None
         if p.eat(":"):
             ty = parse_type(p)
+        if p.eat(";"):
+            return ("let", name, mut, ty, None)      # declared, assigned later
         p.expect("=")
         e = parse_expr(p)
         p.expect(";")
